@@ -57,11 +57,15 @@ _uniq = itertools.count()
 # ------------------------------------------------------------------ running the compiler
 
 def compile_src(aldor, src, base):
-    d = "%s/r%d" % (base, next(_uniq))
-    try:
-        r = mini.compile_only(aldor, src, d, extra=OUT_FLAGS, timeout=180)
-    finally:
-        shutil.rmtree(d, ignore_errors=True)
+    """One compilation.  A timeout is retried once (oversubscribed machine; a real hang hangs again)."""
+    for attempt in (0, 1):
+        d = "%s/r%d" % (base, next(_uniq))
+        try:
+            r = mini.compile_only(aldor, src, d, extra=OUT_FLAGS, timeout=180)
+        finally:
+            shutil.rmtree(d, ignore_errors=True)
+        if r["rc"] != 124:
+            break
     r["out"] = r["out"] + r["err"]
     return r
 
@@ -149,8 +153,20 @@ def oracle_gap(x, cls):
     `mod: (%, MachineInteger) -> MachineInteger` (sal_intcat.as:99) while Types.v gives `mod` the one
     signature (n, n) -> n.  A wrong-argument-type mutant that makes the left operand of a `mod` an
     Integer is therefore legal Aldor although the model calls it ill typed.  Reported to b-c01."""
-    return (cls == "ill-typed-accepted" and x["kind"] == "wrong-argument-type"
-            and " mod " in x["bad_form"] and INT_LIT.search(x["bad_form"]) is not None)
+    if (cls == "ill-typed-accepted" and x["kind"] == "wrong-argument-type"
+            and " mod " in x["bad_form"] and INT_LIT.search(x["bad_form"]) is not None):
+        return "Integer-mod-MachineInteger"
+    if cls == "ill-typed-accepted" and x["kind"] == "ambiguous-overload":
+        # second gap: the twin of a function whose result type has no `<<` (BoxA(T) / BoxB(T)) is NOT ambiguous in
+        # `stdout << f(..)`: only the twin's result can be printed, Aldor's context type selects it.  The model
+        # (Types.v: "the subset never uses the context type") calls every two-meaning call an error.
+        head = x["bad_form"].split("\n")[0]
+        sig = head[:head.rfind("): ") + 3] if "): " in head else None
+        if sig:
+            rets = [l[len(sig):] for l in x["src"].splitlines() if l.startswith(sig)]
+            if any(r.startswith("Box") for r in rets):
+                return "twin-of-unprintable-result-type"
+    return None
 
 
 def class_key(x, cls, r):
@@ -552,7 +568,7 @@ def run(rep, tier):
                             crash_samples.append({"seed": m["seed"], "size": m["size"], "kind": x["kind"], "site": x["site"],
                                                   "bad_form": x["bad_form"], "out": r["out"][:600]})
                     if cls and oracle_gap(x, cls):
-                        st["oracle-gap:Integer-mod-MachineInteger"] += 1
+                        st["oracle-gap:" + oracle_gap(x, cls)] += 1
                         cls = None
                     st["mutant-rejected" if cls is None else "mutant:" + cls] += 1
                     kinds[(x["kind"], "ok" if cls is None else cls)] += 1
